@@ -136,6 +136,7 @@ def check(chk):
     _dims_guard(chk)
     _roles(chk)
     _mode_labels(chk)
+    _n_modes_at_construction(chk)
     c15._exhaustive(_Relabel(chk, "EXH.solver", "GUARD.role.solver"))
     chk.floor("GUARD.type", 30)
     chk.floor("GUARD.role", 25)
@@ -334,6 +335,69 @@ def _dims_guard(chk):
 
 
 # ----------------------------------------------------------------------------
+# constructors whose n_modes is not a decomposition size (reason per row; frozen after reading each)
+N_MODES_CTOR_EXEMPT = {
+    "EOFRotator": "n_modes bounds a label slice over the modes of the model handed to fit() (.sel(mode=slice(1, n_modes))); the rotators have their own constructor and do not decompose anything",
+    "GWPCA": "own constructor; needs numba (absent here); its parameter handling is recorded as a known finding of C13",
+}
+
+
+def _n_modes_at_construction(chk):
+    """GUARD.role.n_modes.ctor - non-positive or non-numeric n_modes is refused by EVERY model, also by those that never hand
+    n_modes to a decomposer (POP takes all eigen-pairs of the feedback matrix, SparsePCA passes it to its own kernel): the
+    value given to a single-set model's constructor travels up the ``super().__init__(n_modes=n_modes, ...)`` chain to a
+    constructor that calls sanity_check_n_modes on it."""
+    pm = chk.pm
+    base = pm.cls("xeofs.single.base_model_single_set.BaseModelSingleSet")
+    n = 0
+    for cls in pm.concrete_models():
+        if base not in cls.mro:
+            continue
+        init = cls.resolve("__init__")
+        if init is None or "n_modes" not in init.params:
+            continue
+        if cls.name in N_MODES_CTOR_EXEMPT or any(k.name in N_MODES_CTOR_EXEMPT for k in cls.mro):
+            continue
+        n += 1
+        cur, name, ok, hops = init, "n_modes", False, 0
+        while cur is not None and hops < 8:
+            hops += 1
+            if any((dotted(c.func) or "").split(".")[-1] == "sanity_check_n_modes" and c.args and isinstance(c.args[0], ast.Name) and c.args[0].id == name for c in calls_in(cur)):
+                ok = True
+                break
+            nxt = None
+            for c in calls_in(cur):
+                f = c.func
+                if isinstance(f, ast.Attribute) and f.attr == "__init__" and isinstance(f.value, ast.Call) and isinstance(f.value.func, ast.Name) and f.value.func.id == "super":
+                    kw = {k.arg: k.value for k in c.keywords if k.arg}
+                    v = kw.get("n_modes")
+                    if isinstance(v, ast.Name) and v.id == name and cur.cls is not None:
+                        m = cur.cls.mro if cur.cls in cls.mro else cls.mro
+                        after = cls.mro[cls.mro.index(cur.cls) + 1:] if cur.cls in cls.mro else []
+                        for k in after:
+                            if "__init__" in k.methods:
+                                nxt = k.methods["__init__"]
+                                break
+            cur = nxt
+        if not ok:
+            # ... or it is refused at fit: the fit algorithm hands the model's n_modes to a decomposer / inner model that validates it
+            fa = cls.resolve("_fit_algorithm")
+            if fa is not None:
+                for g in class_closure(pm, cls, fa):
+                    for c in calls_in(g):
+                        callee = (dotted(c.func) or "").split(".")[-1]
+                        if callee in ("Decomposer", "SVD", "_SVD", "EOF", "ComplexEOF"):
+                            kw = {k.arg: k.value for k in c.keywords}
+                            v = kw.get("n_modes")
+                            star = [k.value for k in c.keywords if k.arg is None]
+                            if (v is not None and "n_modes" in norm(v) and "pca" not in norm(v)) or any("_decomposer_kwargs" in norm(x) for x in star):
+                                ok = True
+        chk.check(ok, "GUARD.role.n_modes.ctor", init, init.node, construct=f"{cls.name}(n_modes=...) is validated at construction or at fit",
+                  why=f"the n_modes given to {cls.name} neither reaches sanity_check_n_modes on the constructor chain nor a validating decomposer / inner model at fit: "
+                      f"{cls.name}(n_modes=0), (n_modes=-1) or (n_modes='foo') is fitted and returns numbers")
+    chk.require(n >= 6, f"GUARD.role.n_modes.ctor: only {n} single-set constructors with n_modes found")
+
+
 def _mode_labels(chk):
     """GUARD.modes.select - score arrays naming modes the model does not have are refused.  In every
     _inverse_transform_algorithm the stored array that is contracted with a score parameter P is selected by P's OWN
@@ -539,6 +603,9 @@ def _roles(chk):
           dominates=lambda fn, ff: [c for c in calls_in(fn) if isinstance(c.func, ast.Attribute) and c.func.attr == "transform"])
     ctr = M("xeofs.preprocessing.concatenator.Concatenator", "transform")
     _role(chk, "item_count", ctr, cmp_pred(any_text=("len(", "n_data")), "a wrong number of 2-D arrays is no longer refused by the concatenator")
+    mtr = pm.cls("xeofs.multi.cca.CCA").resolve("transform")
+    chk.require(mtr is not None, "multi.CCA.transform vanished")
+    _role(chk, "item_count", mtr, cmp_pred(any_text=("len(", "n_views")), "multi-set CCA transform answers for a list with another number of views than it was fitted on (each view is projected on its own weights, missing views are silently left out)")
     pfit = M("xeofs.preprocessing.preprocessor.Preprocessor", "_fit_algorithm")
     cpn = F("xeofs.utils.xarray_utils._check_parameter_number")
     _role(chk, "param_count", cpn, cmp_pred(any_text=("len(", "n_data")), "a weights/parameter list of the wrong length is no longer refused")
@@ -565,6 +632,9 @@ def _roles(chk):
                              "transform data whose feature coordinates hold the fitted labels in another order are no longer refused, and the matrix columns are matched by position")
     ordered_label_comparison(chk, "GUARD.role.feature_coords.ordered", pm.own_method("xeofs.preprocessing.sanitizer.Sanitizer", "_check_input_coords"), ("feature_coords",),
                              "2-D data whose feature coordinate holds the fitted labels in another order are no longer refused")
+    ordered_label_comparison(chk, "GUARD.role.feature_coords.multiindex", pm.own_method("xeofs.preprocessing.multi_index_converter.MultiIndexConverter", "transform"), ("coords_from_fit",),
+                             "a MultiIndex along a feature dimension is replaced by positions without being compared with the index seen at fit: data holding the fitted labels in another "
+                             "order pass every later check (positions equal positions) and are projected column by column on the wrong features")
     from .common import holds as _holds
     _role(chk, "transform_type", M(st, "_validate_transform_data_type"),
           lambda g, ff: _holds(g.test, g.polarity, "NotEq", lambda e: "type" in norm(e).lower(), lambda e: "data_type" in norm(e)) or _holds(g.test, g.polarity, "NotEq", lambda e: "data_type" in norm(e), lambda e: "type" in norm(e).lower()),
